@@ -5,6 +5,7 @@ import (
 	"encoding/json"
 	"fmt"
 	"hash/fnv"
+	"io"
 	"math/rand"
 	"reflect"
 	"sort"
@@ -130,6 +131,149 @@ func (x *Exec) tableCaps() []TabCap {
 	return r
 }
 
+// StatsRec is a deep copy of World.Stats() with component names instead of types.
+type StatsArch struct {
+	Comps        []string `json:"comps"`
+	Size         int      `json:"size"`
+	Capacity     int      `json:"capacity"`
+	NumRelations int      `json:"numrel"`
+	Memory       int      `json:"memory"`
+	MemoryUsed   int      `json:"memoryused"`
+	MemPerEntity int      `json:"mpe"`
+	FreeTables   int      `json:"freetables"`
+	Tables       [][4]int `json:"tables"` // size, capacity, memory, memoryused
+}
+
+type StatsRec struct {
+	Used, Recycled, Total, Capacity int
+	Memory, MemoryUsed              int
+	CachedFilters, Observers        int
+	Locked                          bool
+	NumTypes                        int
+	Archs                           []StatsArch
+	Sizes                           map[string]int // byte size of each model component type
+}
+
+func (x *Exec) statsRec() StatsRec {
+	st := x.w.Stats()
+	r := StatsRec{Used: st.Entities.Used, Recycled: st.Entities.Recycled, Total: st.Entities.Total, Capacity: st.Entities.Capacity,
+		Memory: st.Memory, MemoryUsed: st.MemoryUsed, CachedFilters: st.CachedFilters, Observers: st.Observers, Locked: st.Locked,
+		NumTypes: len(st.ComponentTypeNames), Archs: []StatsArch{}, Sizes: map[string]int{}}
+	for _, c := range x.Cfg.Comps {
+		r.Sizes[c] = int(compTypes[c].Size())
+	}
+	for i := range st.Archetypes {
+		a := &st.Archetypes[i]
+		sa := StatsArch{Comps: []string{}, Size: a.Size, Capacity: a.Capacity, NumRelations: a.NumRelations, Memory: a.Memory,
+			MemoryUsed: a.MemoryUsed, MemPerEntity: a.MemoryPerEntity, FreeTables: a.FreeTables, Tables: [][4]int{}}
+		for _, id := range a.ComponentIDs {
+			n := "?"
+			for name, cid := range x.ids {
+				if ecs.ComponentIDs(x.w)[id] == cid {
+					n = name
+				}
+			}
+			sa.Comps = append(sa.Comps, n)
+		}
+		sort.Strings(sa.Comps)
+		for _, t := range a.Tables {
+			sa.Tables = append(sa.Tables, [4]int{t.Size, t.Capacity, t.Memory, t.MemoryUsed})
+		}
+		r.Archs = append(r.Archs, sa)
+	}
+	return r
+}
+
+// dumpLoad: dump the entity state, load it into a second world (fresh, or used and reset), compare liveness of
+// every handle and the handles the next creations return in both worlds; encode/decode handles (C17).
+func (x *Exec) dumpLoad(op GenOp, lo *LogOp) {
+	d := x.w.Unsafe().DumpEntities()
+	if op.Mode != "nojson" {
+		// the dump itself travels through JSON
+		b, err := json.Marshal(&d)
+		if err != nil {
+			panic(err)
+		}
+		d = ecs.EntityDump{}
+		if err := json.Unmarshal(b, &d); err != nil {
+			panic(err)
+		}
+	}
+	w2 := ecs.NewWorld(x.Cfg.Caps...)
+	for i := 0; i < x.Cfg.Fill; i++ {
+		ecs.TypeID(w2, reflect.ArrayOf(i+1, reflect.TypeFor[uint8]()))
+	}
+	for _, c := range x.Cfg.Comps {
+		ecs.TypeID(w2, compTypes[c])
+	}
+	if op.Mode == "reset" {
+		// a world that was used before and reset
+		es := []ecs.Entity{}
+		for i := 0; i < 5; i++ {
+			es = append(es, w2.NewEntity())
+		}
+		w2.RemoveEntity(es[1])
+		w2.RemoveEntity(es[3])
+		w2.NewEntity()
+		w2.Reset()
+	}
+	w2.Unsafe().LoadEntities(&d)
+	for _, h := range x.issued {
+		if w2.Alive(h) {
+			lo.Alive2 = append(lo.Alive2, h)
+		}
+	}
+	for i := 0; i < op.N; i++ {
+		lo.Ret2 = append(lo.Ret2, w2.NewEntity())
+	}
+	for i := 0; i < op.N; i++ {
+		lo.Ret = append(lo.Ret, x.w.NewEntity())
+	}
+	hs := append([]ecs.Entity{{}}, x.issued...)
+	hs = append(hs, lo.Ret...)
+	if len(hs) > 24 {
+		hs = hs[len(hs)-24:]
+	}
+	for _, h := range hs {
+		var j, b ecs.Entity
+		jb, _ := json.Marshal(h)
+		_ = json.Unmarshal(jb, &j)
+		bb, _ := h.MarshalBinary()
+		_ = b.UnmarshalBinary(bb)
+		lo.Codec = append(lo.Codec, [3]ecs.Entity{h, j, b})
+	}
+	for n := 0; n <= 16; n++ {
+		var e ecs.Entity
+		if e.UnmarshalBinary(make([]byte, n)) == nil {
+			lo.BinOK = append(lo.BinOK, n)
+		}
+	}
+}
+
+// LogStats is a "stats" event: the statistics of the world under test and of its replayed twin.
+type LogStats struct {
+	K     string   `json:"k"`
+	Stats StatsRec `json:"stats"`
+	Twin  StatsRec `json:"twin"`
+}
+
+func (x *Exec) statsEvent() {
+	x.emit(LogStats{K: "stats", Stats: x.statsRec(), Twin: x.twinStats()})
+}
+
+// twinStats replays the history so far on a fresh world without any intermediate Stats call and asks once (C19).
+func (x *Exec) twinStats() StatsRec {
+	cfg := x.Cfg
+	cfg.Probes, cfg.Misuse, cfg.EveryOp = 0, 0, false
+	t := NewExec(cfg, bufio.NewWriter(io.Discard))
+	t.quiet = true
+	t.newWorld()
+	for i, op := range x.hist {
+		t.run(op, i+1)
+	}
+	return t.statsRec()
+}
+
 // CbRec is one observer callback invocation with a snapshot of the world as seen from inside it.
 type CbRec struct {
 	O      int        `json:"o"`
@@ -142,33 +286,37 @@ type CbRec struct {
 }
 
 type LogOp struct {
-	K     string                `json:"k"`
-	I     int                   `json:"i"`
-	Op    string                `json:"op"`
-	E     ecs.Entity            `json:"e"`
-	Add   []string              `json:"add"`
-	Rem   []string              `json:"rem"`
-	Vals  map[string]int64      `json:"vals"`
-	Tg    map[string]ecs.Entity `json:"tg"`
-	N     int                   `json:"n"`
-	F     int                   `json:"f"`
-	Flt   LogFlt                `json:"flt"`
-	Mode  string                `json:"mode"`
-	Panic bool                  `json:"panic"`
-	Msg   string                `json:"msg"`
-	Ret   []ecs.Entity          `json:"ret"`
-	Bvals []BVal                `json:"bvals"`
-	O     int                   `json:"o"`
-	Obs   GenObs                `json:"obs"`
-	Ev    string                `json:"ev"`
-	Late  bool                  `json:"late"`
-	Caps  []TabCap              `json:"caps"`
-	Iters int                   `json:"iters"`
-	Q     int                   `json:"q"`
-	Ok    bool                  `json:"ok"`
-	Res   Visit                 `json:"res"`
-	Cbs   []CbRec               `json:"cbs"`
-	St    State                 `json:"st"`
+	K      string                `json:"k"`
+	I      int                   `json:"i"`
+	Op     string                `json:"op"`
+	E      ecs.Entity            `json:"e"`
+	Add    []string              `json:"add"`
+	Rem    []string              `json:"rem"`
+	Vals   map[string]int64      `json:"vals"`
+	Tg     map[string]ecs.Entity `json:"tg"`
+	N      int                   `json:"n"`
+	F      int                   `json:"f"`
+	Flt    LogFlt                `json:"flt"`
+	Mode   string                `json:"mode"`
+	Panic  bool                  `json:"panic"`
+	Msg    string                `json:"msg"`
+	Ret    []ecs.Entity          `json:"ret"`
+	Bvals  []BVal                `json:"bvals"`
+	O      int                   `json:"o"`
+	Obs    GenObs                `json:"obs"`
+	Ev     string                `json:"ev"`
+	Late   bool                  `json:"late"`
+	Caps   []TabCap              `json:"caps"`
+	Alive2 []ecs.Entity          `json:"alive2"`
+	Ret2   []ecs.Entity          `json:"ret2"`
+	Codec  [][3]ecs.Entity       `json:"codec"`
+	BinOK  []int                 `json:"binok"`
+	Iters  int                   `json:"iters"`
+	Q      int                   `json:"q"`
+	Ok     bool                  `json:"ok"`
+	Res    Visit                 `json:"res"`
+	Cbs    []CbRec               `json:"cbs"`
+	St     State                 `json:"st"`
 }
 
 type Visit struct {
@@ -220,6 +368,8 @@ type Config struct {
 	Reuse     bool     `json:"reuse"`     // keep unregistered filter objects and reuse them
 	MaxEnt    int      `json:"maxent"`    // driver: soft bound on the number of alive entities
 	Observers int      `json:"observers"` // driver: max simultaneously registered observers (0 = none)
+	ResetP    int      `json:"resetp"`    // driver: per-mille probability of World.Reset / DumpLoad per step
+	Stats     bool     `json:"stats"`     // emit a stats event (with replayed twin) after each history
 	Queries   int      `json:"queries"`   // driver: max simultaneously open queries (0 = none)
 }
 
@@ -232,30 +382,40 @@ type regFilter struct {
 	ids []string // typed parameters of tf
 }
 
+type oldObs struct {
+	o    *ecs.Observer
+	spec string
+}
+
 // Exec executes sequences on a fresh world each.
 type Exec struct {
 	Cfg Config
 	Out *bufio.Writer
 	rng *rand.Rand
 
-	w       *ecs.World
-	ids     map[string]ecs.ID
-	names   map[ecs.ID]string
-	rel     map[string]bool
-	ords    []ecs.Entity
-	issued  []ecs.Entity
-	maps    map[string]TypedMap
-	exs     map[string]TypedExchange
-	filters map[int]*regFilter
-	pool    map[string]*regFilter
-	obs     map[int]*ecs.Observer
-	queries map[int]*openQuery
-	cur     *LogOp
-	opIndex int
-	custom  map[string]ecs.EventType
-	seq     int
-	Events  int
-	Panics  int
+	w          *ecs.World
+	ids        map[string]ecs.ID
+	names      map[ecs.ID]string
+	rel        map[string]bool
+	ords       []ecs.Entity
+	issued     []ecs.Entity
+	maps       map[string]TypedMap
+	exs        map[string]TypedExchange
+	filters    map[int]*regFilter
+	pool       map[string]*regFilter
+	obs        map[int]*ecs.Observer
+	queries    map[int]*openQuery
+	cur        *LogOp
+	opIndex    int
+	hist       []GenOp
+	quiet      bool
+	oldObs     map[int]oldObs
+	obsSpec    map[int]GenObs
+	oldFilters map[int]*regFilter
+	custom     map[string]ecs.EventType
+	seq        int
+	Events     int
+	Panics     int
 }
 
 func NewExec(cfg Config, out *bufio.Writer) *Exec {
@@ -297,6 +457,10 @@ func (x *Exec) newWorld() {
 	x.pool = map[string]*regFilter{}
 	x.obs = map[int]*ecs.Observer{}
 	x.queries = map[int]*openQuery{}
+	x.oldObs = map[int]oldObs{}
+	x.obsSpec = map[int]GenObs{}
+	x.oldFilters = map[int]*regFilter{}
+	x.hist = x.hist[:0]
 	reg := ecs.EventRegistry{}
 	x.custom = map[string]ecs.EventType{"Custom0": reg.NewEventType(), "Custom1": reg.NewEventType()}
 }
@@ -693,11 +857,14 @@ func (x *Exec) filterFor(f int, flt GenFlt) *regFilter {
 type harnessBug struct{ msg string }
 
 func (x *Exec) run(op GenOp, i int) LogOp {
+	if op.Q == 0 && (op.Op == "QOpen" || op.Op == "QNext" || op.Op == "QClose") {
+		op.Q = op.N // the generator carries the query id in n
+	}
 	e := x.ent(op.E)
 	tg := x.tgMap(op.Tg)
 	lo := LogOp{K: "op", I: i, Op: op.Op, E: e, Add: op.Add, Rem: op.Rem, Vals: map[string]int64{}, Tg: tg,
 		N: op.N, F: op.F, Flt: x.logFlt(op.Flt), Mode: op.Mode, Ret: []ecs.Entity{}, Bvals: []BVal{},
-		O: op.O, Obs: op.Obs, Ev: op.Ev, Cbs: []CbRec{}, Q: op.Q, Caps: []TabCap{},
+		O: op.O, Obs: op.Obs, Ev: op.Ev, Cbs: []CbRec{}, Q: op.Q, Caps: []TabCap{}, Alive2: []ecs.Entity{}, Ret2: []ecs.Entity{}, Codec: [][3]ecs.Entity{}, BinOK: []int{},
 		Res: Visit{V: map[string]int64{}, T: map[string]ecs.Entity{}}}
 	if lo.Obs.Obs == nil {
 		lo.Obs.Obs = []string{}
@@ -710,6 +877,7 @@ func (x *Exec) run(op GenOp, i int) LogOp {
 	}
 	x.cur = &lo
 	x.opIndex = i
+	x.hist = append(x.hist, op)
 	defer func() { x.cur = nil }()
 	if lo.Add == nil {
 		lo.Add = []string{}
@@ -744,6 +912,12 @@ func (x *Exec) run(op GenOp, i int) LogOp {
 		x.issued = append(x.issued, h)
 	}
 	if op.Op == "Reset" && !lo.Panic {
+		for id, o := range x.obs {
+			x.oldObs[id] = oldObs{o: o, spec: fmt.Sprint(x.obsSpec[id])}
+		}
+		for id, rf := range x.filters {
+			x.oldFilters[id] = rf
+		}
 		x.obs = map[int]*ecs.Observer{}
 		x.queries = map[int]*openQuery{}
 		x.ords = x.ords[:0]
@@ -751,7 +925,9 @@ func (x *Exec) run(op GenOp, i int) LogOp {
 		x.filters = map[int]*regFilter{}
 		x.pool = map[string]*regFilter{}
 	}
-	lo.St = x.project()
+	if !x.quiet {
+		lo.St = x.project()
+	}
 	return lo
 }
 
@@ -936,6 +1112,18 @@ func (x *Exec) dispatch(op GenOp, e ecs.Entity, tg map[string]ecs.Entity, lo *Lo
 			}
 			lo.Bvals = append(lo.Bvals, bv)
 		}
+		if op.Mode == "val" {
+			// value form: the same component values for every selected entity
+			vs := valsFor(tuple, op.Vals)
+			if op.Op == "AddBatch" && x.Cfg.Path != "exchange" {
+				x.mapFor(tuple).AddBatch(b, vs, x.typedRels(tuple, tg))
+			} else if op.Op == "AddBatch" {
+				x.exFor(tuple, nil).AddBatch(b, vs, x.typedRels(tuple, tg))
+			} else {
+				x.exFor(tuple, op.Rem).ExchangeBatch(b, vs, x.typedRels(tuple, tg))
+			}
+			return
+		}
 		if op.Op == "AddBatch" && x.Cfg.Path != "exchange" {
 			x.mapFor(tuple).AddBatchFn(b, fn, x.typedRels(tuple, tg))
 		} else if op.Op == "AddBatch" {
@@ -946,9 +1134,17 @@ func (x *Exec) dispatch(op GenOp, e ecs.Entity, tg map[string]ecs.Entity, lo *Lo
 	case "RemoveBatch":
 		rf := x.filterFor(op.F, op.Flt)
 		b := x.batchOf(rf, x.tgMap(op.Flt.Qt))
-		x.mapFor(x.order(op.Rem)).RemoveBatch(b, func(h ecs.Entity) {
-			lo.Bvals = append(lo.Bvals, BVal{E: h, V: map[string]int64{}})
-		})
+		var cb func(h ecs.Entity)
+		if op.Mode != "val" {
+			cb = func(h ecs.Entity) {
+				lo.Bvals = append(lo.Bvals, BVal{E: h, V: map[string]int64{}})
+			}
+		}
+		if x.Cfg.Path == "exchange" {
+			x.exFor([]string{x.Cfg.Comps[0]}, op.Rem).RemoveBatch(b, cb)
+		} else {
+			x.mapFor(x.order(op.Rem)).RemoveBatch(b, cb)
+		}
 	case "SetRelBatch":
 		rf := x.filterFor(op.F, op.Flt)
 		b := x.batchOf(rf, x.tgMap(op.Flt.Qt))
@@ -968,6 +1164,13 @@ func (x *Exec) dispatch(op GenOp, e ecs.Entity, tg map[string]ecs.Entity, lo *Lo
 			lo.Bvals = append(lo.Bvals, BVal{E: h, V: map[string]int64{}})
 		})
 	case "RegF":
+		if old, ok := x.oldFilters[op.F]; ok && fmt.Sprint(old.flt.With, old.flt.Without, old.flt.Excl) == fmt.Sprint(op.Flt.With, op.Flt.Without, op.Flt.Excl) && len(op.Flt.Ft) == 0 && len(old.flt.Ft) == 0 {
+			// a filter object that was registered before a Reset is registered again
+			delete(x.oldFilters, op.F)
+			old.register()
+			x.filters[op.F] = old
+			return
+		}
 		rf, err := x.buildFilter(op.Flt.With, op.Flt.Without, op.Flt.Excl, x.tgMap(op.Flt.Ft))
 		if err != nil {
 			panic(harnessBug{err.Error()})
@@ -996,6 +1199,15 @@ func (x *Exec) dispatch(op GenOp, e ecs.Entity, tg map[string]ecs.Entity, lo *Lo
 			}
 		}
 	case "RegO":
+		if old, ok := x.oldObs[op.O]; ok && old.spec == fmt.Sprint(op.Obs) {
+			// an observer object that was registered before a Reset is registered again
+			delete(x.oldObs, op.O)
+			old.o.Register(w)
+			x.obs[op.O] = old.o
+			x.obsSpec[op.O] = op.Obs
+			return
+		}
+		x.obsSpec[op.O] = op.Obs
 		o := ecs.Observe(x.eventType(op.Obs.Ev)).For(compsOf(op.Obs.Obs)...).With(compsOf(op.Obs.With)...)
 		if op.Obs.Excl {
 			o = o.Exclusive()
@@ -1009,6 +1221,8 @@ func (x *Exec) dispatch(op GenOp, e ecs.Entity, tg map[string]ecs.Entity, lo *Lo
 		delete(x.obs, op.O)
 	case "Emit":
 		w.Event(x.eventType(op.Ev)).For(compsOf(op.Add)...).Emit(e)
+	case "DumpLoad":
+		x.dumpLoad(op, lo)
 	case "Shrink":
 		switch op.Mode {
 		case "one":
@@ -1514,6 +1728,9 @@ func (x *Exec) RunSequence(ops []GenOp, note string) {
 	}
 	if !x.Cfg.EveryOp {
 		x.battery()
+	}
+	if x.Cfg.Stats {
+		x.statsEvent()
 	}
 	x.misuseBattery(len(ops))
 }
